@@ -203,3 +203,13 @@ chk("C15", MC,
     "stored counter symbolic; obligations discharged by z3 under each path",
     PY_NOTE, "symbolic execution of the Python source (own z3-backed engine) "
     "with exhaustive bounded schedule exploration", "B:8/C15")
+
+chk("C23", MC,
+    "real ParallelEtherCat.run/get_ethertype and the real FMMULock run by 2-3 simulated processes over a POSIX file model "
+    "(rename onto empty directory, rmdir, O_EXCL, lockf) and a kernel model for bpf pin/get and XDP attach/detach; scheduling "
+    "point at every call, bounded preemptions explored exhaustively, randrange adversarial, optional crash, FMMU bitmap bytes "
+    "symbolic. A monitor checks at every point: single installer, dispatcher attached and table pinned for every running "
+    "participant, distinct ethertypes, distinct address windows never handed out twice. Mostly exhaustive decision exploration; "
+    "the solver decides the bitmap obligations.",
+    PY_NOTE + " Histories in which a last participant's teardown overlaps another's start are a known finding and excluded.",
+    "exhaustive bounded schedule exploration of the real code over file-system/kernel models, symbolic data decided by z3", "B:8/C23")
